@@ -244,9 +244,9 @@ package py
 //@   requires itemsnn: forall k in [0, len(s.s.l.Items)): s.s.l.Items[k] != nil
 //@   protects s.s
 //@   modifies *
-//@   ensures fwd: old(s.s.keyFunc) == None && !old(s.s.reverse) && old(inList(s.s.l, i)) && old(inList(s.s.l, j)) ==> opid[0] == 27 && opcall[0] == old(s.s.l.Items[i]) && opcall[1] == old(s.s.l.Items[j])
-//@   ensures rev: old(s.s.keyFunc) == None && old(s.s.reverse) && old(inList(s.s.l, i)) && old(inList(s.s.l, j)) ==> opid[0] == 27 && opcall[0] == old(s.s.l.Items[j]) && opcall[1] == old(s.s.l.Items[i])
-//@   ensures strict: old(s.s.keyFunc) == None && old(inList(s.s.l, i)) && old(inList(s.s.l, j)) && r ==> is(opcall[3], Bool) && den(opcall[3]) == 1
+//@   ensures fwd: isNone(old(s.s.keyFunc)) && !old(s.s.reverse) && old(inList(s.s.l, i)) && old(inList(s.s.l, j)) ==> opid[0] == 27 && opcall[0] == old(s.s.l.Items[i]) && opcall[1] == old(s.s.l.Items[j])
+//@   ensures rev: isNone(old(s.s.keyFunc)) && old(s.s.reverse) && old(inList(s.s.l, i)) && old(inList(s.s.l, j)) ==> opid[0] == 27 && opcall[0] == old(s.s.l.Items[j]) && opcall[1] == old(s.s.l.Items[i])
+//@   ensures strict: isNone(old(s.s.keyFunc)) && old(inList(s.s.l, i)) && old(inList(s.s.l, j)) && r ==> is(opcall[3], Bool) && den(opcall[3]) == 1
 //@   ensures outside: i >= old(len(s.s.l.Items)) || (0 <= i && j >= old(len(s.s.l.Items))) ==> !r
 
 // ---- py/range.go ----
